@@ -24,7 +24,7 @@ Definition corr_mix (c : mcase) : bool := outs_eqb (m_obs c) (run (m_keep c) (m_
 Definition holds_mix (c : mcase) : bool :=
   outs_eqb (m_obs c) (spec_run (m_keep c) (m_zero c) [] 0 false (m_ops c)).
 
-Record ccase := CC { c_v0 : Qc; c_ops : list cop; c_obs : list Qc }.
+Record ccase := CC { c_v0 : Qc; c_ops : list (cop Qc); c_obs : list Qc }.
 Definition corr_ctl (c : ccase) : bool := list_eqb Qc_eqb (c_obs c) (crun (c_v0 c) (c_ops c)).
 Definition holds_ctl (c : ccase) : bool := list_eqb Qc_eqb (c_obs c) (cspec_run (c_v0 c) [] (c_ops c)).
 
@@ -34,3 +34,26 @@ Definition corr_mixes (l : list mcase) : bool := forallb corr_mix l.
 Definition holds_mixes (l : list mcase) : bool := forallb holds_mix l.
 Definition corr_ctls (l : list ccase) : bool := forallb corr_ctl l.
 Definition holds_ctls (l : list ccase) : bool := forallb holds_ctl l.
+
+(* Round 3: ControlStream values of any KIND.  A small tagged union: what Python calls None / bool / int / float /
+   exact rational / str, and VObj k = "the k-th object of the case's object table, by identity" (a list, a tuple,
+   a Stream, nan, inf, a callable...).  The harness classifies each value READ from the stream independently of the
+   assignments (by type, objects by identity), so equality here is "same kind, same content / same object". *)
+Inductive cval := VNone | VBool (b : bool) | VInt (z : Z) | VFloat (q : Qc) | VQ (q : Qc) | VStr (s : string)
+                | VObj (k : nat) | VStopped | VRaised (e : string).
+Definition cval_eqb (a b : cval) : bool :=
+  match a, b with
+  | VNone, VNone => true
+  | VBool x, VBool y => Bool.eqb x y
+  | VInt x, VInt y => Z.eqb x y
+  | VFloat x, VFloat y => Qc_eqb x y
+  | VQ x, VQ y => Qc_eqb x y
+  | VStr x, VStr y => String.eqb x y
+  | VObj x, VObj y => Nat.eqb x y
+  | _, _ => false      (* VStopped / VRaised: what the harness records for StopIteration / an exception *)
+  end.
+Record vcase := VC { v_v0 : cval; v_ops : list (cop cval); v_obs : list cval }.
+Definition corr_ctlv (c : vcase) : bool := list_eqb cval_eqb (v_obs c) (crun (v_v0 c) (v_ops c)).
+Definition holds_ctlv (c : vcase) : bool := list_eqb cval_eqb (v_obs c) (cspec_run (v_v0 c) [] (v_ops c)).
+Definition corr_ctlvs (l : list vcase) : bool := forallb corr_ctlv l.
+Definition holds_ctlvs (l : list vcase) : bool := forallb holds_ctlv l.
